@@ -12,12 +12,12 @@ delete callbacks with key and value, in order) equal those of the reference LRU,
 sequence over GetOrCreate / Remove / Clear / ExpirableCache.GetOrCreate. -/
 theorem refines_reference (c : Cfg) (hc : 1 ≤ c.cap) (ops : List Op) :
     (runI c EC.new ops).2 = (runS c Ref.new ops).2 :=
-  sorry
+  (run_sim hc ops (Rel_new c)).2
 
 /-- C08.size_le_cap and distinct keys, after every call sequence -/
 theorem size_le_cap (c : Cfg) (hc : 1 ≤ c.cap) (ops : List Op) :
     (runI c EC.new ops).1.items.length ≤ c.cap ∧ ((runI c EC.new ops).1.items.map (·.k)).Nodup :=
-  sorry
+  (run_sim hc ops (Rel_new c)).1.inv
 
 /-- C08.delete_callback_exactly_once: the successfully created (pk, v) pairs are exactly the pairs
 handed to the delete callback plus the resident ones — nothing leaked, nothing deleted twice,
@@ -25,19 +25,29 @@ never a resident one. -/
 theorem delete_callback_exactly_once (c : Cfg) (hc : 1 ≤ c.cap) (ops : List Op) :
     let r := runI c EC.new ops
     (createdOk (events r.2)).Perm (deleted (events r.2) ++ r.1.items.map fun e => (e.pk, e.v)) :=
-  sorry
+  by
+  show (createdOk (events (runI c EC.new ops).2)).Perm
+    (deleted (events (runI c EC.new ops).2) ++ (runI c EC.new ops).1.items.map pv)
+  rw [List.perm_iff_count]
+  intro a
+  have h := run_bal hc ops (Rel_new c) a
+  simpa [List.count_append, EC.new] using h
 
 /-- C08.hit_no_create_becomes_mru -/
 theorem hit_no_create_becomes_mru (c : Cfg) (s : EC) (pk : Nat) (e : Entry)
     (h : findK s.items (c.km pk) = some e) :
     s.getOrCreate c pk = ({ s with items := eraseK s.items (c.km pk) ++ [e] }, .val e.v, []) :=
-  sorry
+  by
+  unfold EC.getOrCreate
+  simp only [h]
 
 /-- C08.failed_create_no_change: nothing resident changes, no delete callback runs -/
 theorem failed_create_no_change (c : Cfg) (s : EC) (pk : Nat)
     (hm : findK s.items (c.km pk) = none) (hf : c.cr pk s.calls = none) :
     (s.getOrCreate c pk).1.items = s.items ∧ (s.getOrCreate c pk).2 = (.err, [.create pk none]) :=
-  sorry
+  by
+  unfold EC.getOrCreate
+  simp only [hm, hf, and_self]
 
 /-- C08.evicts_exactly_lru (Spec side): a successful miss on a full cache evicts exactly one
 resident and it is one with the minimal last-use stamp. -/
@@ -47,7 +57,12 @@ theorem ref_evicts_min (c : Cfg) (s : Ref) (pk v : Nat)
     ∃ m, lruOf ({ k := c.km pk, pk := pk, v := v, lastUse := s.clock } :: s.res) = some m ∧
       (∀ x ∈ ({ k := c.km pk, pk := pk, v := v, lastUse := s.clock } :: s.res), m.lastUse ≤ x.lastUse) ∧
       (s.getOrCreate c pk).2.2 = [.create pk (some v), .delete m.pk m.v] :=
-  sorry
+  by
+  have hne : ({ k := c.km pk, pk := pk, v := v, lastUse := s.clock } :: s.res : List REntry) ≠ [] := by simp
+  obtain ⟨m, hm'⟩ := lruOf_isSome hne
+  refine ⟨m, hm', lruOf_le hm', ?_⟩
+  unfold Ref.getOrCreate
+  simp only [hm, hv, List.length_cons, if_pos hfull, hm']
 
 /-- non-vacuity: capacity 2, a hit reorders, the next miss evicts the least recently used -/
 example :
